@@ -2,7 +2,7 @@
    level).  A stream is modelled by the byte string it delivers: tokio's read_exact / read_u8
    contracts (trusted base) make the result independent of chunk boundaries and Pending wake-ups;
    the correspondence run exercises the real readers under explicit schedules. *)
-From PV Require Import Thrift.Async Proofs.HeaderP Proofs.RoundtripP Proofs.AsyncP.
+From PV Require Import Thrift.Async Proofs.HeaderP Proofs.RoundtripP Proofs.AsyncP Proofs.AsyncErrP.
 Open Scope Z_scope.
 
 (* same value, same stopping position: whenever the in-memory reader returns [v] leaving state [s']
@@ -24,3 +24,49 @@ Theorem C12_roundtrip : forall p k v c,
       aread_val p fuel (ttype_of v) (mkS (flat ss ++ r) r0) = Ok (canon p v, mkS r r0).
 Proof. exact async_roundtrip. Qed.
 Print Assumptions C12_roundtrip.
+
+(* the error direction: a reader started idle (no bool value pending, no bool field announced) on ANY
+   byte string: whenever the in-memory decoder reports an error, the asynchronous decoder reports an
+   error as well -- it never returns a value and never panics.  The two do not fail at the same
+   place: the in-memory readers reject container sizes and byte-string lengths that exceed the
+   remaining input, the asynchronous readers start reading and run out of stream (every value costs
+   at least one byte; the compact bool carried by a field header is covered by an invariant on the
+   pending value -- Proofs/AsyncErrP.v). *)
+Theorem C12_error : forall p f ty l rcx e,
+  idle rcx -> Z.of_nat (length l) < 2 ^ 63 ->
+  read_val p f ty (mkS l rcx) = Err e ->
+  exists e', aread_val p f ty (mkS l rcx) = Err e'.
+Proof. exact async_error. Qed.
+Print Assumptions C12_error.
+
+(* with fuel beyond the length of the input, neither error is the model's out-of-fuel artefact *)
+Theorem C12_error_fuel : forall p f ty l rcx e,
+  idle rcx -> Z.of_nat (length l) < 2 ^ 63 -> (length l < f)%nat ->
+  read_val p f ty (mkS l rcx) = Err e ->
+  e <> EOutOfFuel /\ exists e', aread_val p f ty (mkS l rcx) = Err e' /\ e' <> EOutOfFuel.
+Proof. exact async_error_fuel. Qed.
+Print Assumptions C12_error_fuel.
+
+(* both directions in one statement: same value and same stopping position on success, an error
+   whenever the in-memory decoder reports one *)
+Theorem C12_outcome : forall p f ty l rcx,
+  idle rcx -> Z.of_nat (length l) < 2 ^ 63 ->
+  match read_val p f ty (mkS l rcx) with
+  | Ok (v, s') => aread_val p f ty (mkS l rcx) = Ok (v, s')
+  | Err _ => exists e', aread_val p f ty (mkS l rcx) = Err e'
+  | Panic _ => True
+  end.
+Proof. exact async_outcome. Qed.
+Print Assumptions C12_outcome.
+
+(* the asynchronous decoder on an arbitrary stream: never a panic, never out of fuel when the fuel
+   exceeds the length of the stream, and a value costs at least one byte *)
+Theorem C12_async_total : forall p f ty l rcx,
+  r_pbool rcx = None ->
+  match aread_val p f ty (mkS l rcx) with
+  | Ok (_, s') => (blen s' + 1 <= length l)%nat
+  | Err e => (length l < f)%nat -> e <> EOutOfFuel
+  | Panic _ => False
+  end.
+Proof. exact async_total. Qed.
+Print Assumptions C12_async_total.
